@@ -136,7 +136,7 @@ func (t T) valid() bool {
 	return t.Z <= maxZoom && uint64(t.X) < uint64(1)<<t.Z && uint64(t.Y) < uint64(1)<<t.Z
 }
 
-func (t T) orb() maptile.Tile { return maptile.New(t.X, t.Y, maptile.Zoom(t.Z)) }
+func (t T) orb() maptile.Tile { return maptile.Tile{X: t.X, Y: t.Y, Z: maptile.Zoom(t.Z)} } // literal, not maptile.New
 
 // rowRange is the range [lo, hi) of tile y coordinates that the check uses:
 // all of [-extent, 2*extent) from zoom 2 on (rows above/below the mercator
@@ -302,6 +302,13 @@ var projs = []projFn{
 	{"swap", func(p orb.Point) orb.Point { return orb.Point{p[1], p[0]} }, false},
 	{"const", func(p orb.Point) orb.Point { return orb.Point{7, -3} }, false},
 	{"negate", func(p orb.Point) orb.Point { return orb.Point{-p[0] - 1, -p[1] - 1} }, false},
+	// corner cases of the bound helpers project.Bound relies on: both corners at the origin (the zero Bound),
+	// a corner on an axis, zero width / height, a negative zero on an edge, corners closer than any epsilon
+	{"origin", func(p orb.Point) orb.Point { return orb.Point{0, 0} }, false},
+	{"collapse-x", func(p orb.Point) orb.Point { return orb.Point{0, p[1]} }, false},
+	{"neg-zero-y", func(p orb.Point) orb.Point { return orb.Point{p[0], math.Copysign(0, -1)} }, false},
+	{"shift-to-origin", func(p orb.Point) orb.Point { return orb.Point{p[0] - math.Floor(p[0]), p[1] - math.Floor(p[1])} }, false},
+	{"tiny", func(p orb.Point) orb.Point { return orb.Point{p[0] * 1e-12, p[1] * 1e-300} }, false},
 	{"WGS84.ToMercator", project.WGS84.ToMercator, true},
 	{"Mercator.ToWGS84", project.Mercator.ToWGS84, true},
 }
@@ -753,7 +760,7 @@ func drawLayerGeom(rt *rapid.T) (Case, bool) {
 }
 
 func TestPropGeometry(t *testing.T) {
-	stats.Assume("point functions are pure and return finite values (identity, rotations, affine maps, a constant, the two real projections on inputs inside their range); every call is logged by a wrapper")
+	stats.Assume("point functions are pure and return finite values (identity, rotations, affine maps, constants incl. the origin, axis collapse, negative zero, shift to the unit square, scaling to tiny values, the two real projections on inputs inside their range); every call is logged by a wrapper")
 	stats.Check(t, 120000, 2000000, func(rt *rapid.T) {
 		c, nt := drawGeometry(rt)
 		if nt {
